@@ -45,6 +45,8 @@ type world struct {
 	gsortBin   string
 	harnessDir string
 	cache      map[string]*built
+	hcache     map[string]*built // regeneration histories: layout + previous + current definition
+	g0cache    map[string]*gen0  // first generation of a history: layout + definition
 	procs      []*probeProc
 	nPkg       int
 	genRuns    int
@@ -58,7 +60,7 @@ func newWorld(harnessDir string) (*world, error) {
 	if err != nil {
 		return nil, err
 	}
-	w := &world{root: root, harnessDir: harnessDir, cache: map[string]*built{}}
+	w := &world{root: root, harnessDir: harnessDir, cache: map[string]*built{}, hcache: map[string]*built{}, g0cache: map[string]*gen0{}}
 	w.env = append(os.Environ(), "GOPROXY=off", "GOSUMDB=off", "GOTOOLCHAIN=local", "GOFLAGS=", "GOWORK=off", "GO111MODULE=on")
 	w.gsortBin = filepath.Join(root, "gsort")
 	// the real CLI, built from /repo's current tree through the harness workspace
@@ -130,7 +132,10 @@ func defsSource(defs []*Def) string {
 
 // probeSource renders the probe main: builds slices of the generated sorter types from value
 // indices and answers Less / sort.Sort / sort.Stable / Swap / Len queries on stdin.
-func probeSource(defs []*Def) string {
+// found[k] = the raw sorter names (`*` = pointer elements) the GENERATED file declares over struct
+// k: the probe talks to what is there (a sorter the definition asks for and the file lacks shows
+// up in the answer to `def` / `regen` and as `no-sorter`, not as a probe that does not compile).
+func probeSource(defs []*Def, found [][]string) string {
 	var b strings.Builder
 	b.WriteString(`package main
 
@@ -184,7 +189,7 @@ type probe struct {
 	}
 	b.WriteString("\treturn ok\n}\n\nvar probes = map[string]probe{\n")
 	for k, d := range defs {
-		for _, raw := range d.Sorters() {
+		for _, raw := range found[k] {
 			tn := typeTrim(raw)
 			ptr := strings.HasPrefix(raw, "*")
 			fmt.Fprintf(&b, "\t%q: {\n\t\tmk: func(recs [][]int) sort.Interface {\n\t\t\ts := make(%s, len(recs))\n\t\t\tfor i, r := range recs {\n\t\t\t\tv := %s{", fmt.Sprintf("%d/%s", k, raw), tn, structName(k))
@@ -352,26 +357,59 @@ func (w *world) tryBuild(defs []*Def) ([]*built, string) {
 	if err != nil {
 		return nil, classifyGenError(string(out))
 	}
-	genFile := filepath.Join(dir, "defs.gsort.go")
+	return w.buildProbe(dir, filepath.Join(dir, "defs.gsort.go"), defs)
+}
+
+// sortersOfGenerated reads a generated file: per struct name the raw sorter names found (sorted)
+// and their chains.
+func sortersOfGenerated(src []byte, nDefs int) (names [][]string, chains []map[string]string, err error) {
+	ch, elemOf, err := chainsOfSource(src)
+	if err != nil {
+		return nil, nil, err
+	}
+	names = make([][]string, nDefs)
+	chains = make([]map[string]string, nDefs)
+	for k := 0; k < nDefs; k++ {
+		chains[k] = map[string]string{}
+		// every slice type whose element is this struct, with its element form
+		for tn, el := range elemOf {
+			if el != structName(k) {
+				continue
+			}
+			raw := tn
+			if strings.HasPrefix(ch[tn], "ptr ") {
+				raw = "*" + tn
+			}
+			chains[k][raw] = ch[tn]
+			names[k] = append(names[k], raw)
+		}
+		sort.Strings(names[k])
+	}
+	return names, chains, nil
+}
+
+// buildProbe reads the generated file of a scratch package whose definition files are already
+// in place, compiles it with the probe and starts the probe.
+func (w *world) buildProbe(dir, genFile string, defs []*Def) ([]*built, string) {
 	anySorter := false
 	for _, d := range defs {
 		if len(d.Sorters()) > 0 {
 			anySorter = true
 		}
 	}
-	chains := map[string]string{}
-	elemOf := map[string]string{}
+	names := make([][]string, len(defs))
+	chains := make([]map[string]string, len(defs))
 	if anySorter {
 		src, err := os.ReadFile(genFile)
 		if err != nil {
 			return nil, "err:no-output"
 		}
-		chains, elemOf, err = chainsOfSource(src)
+		names, chains, err = sortersOfGenerated(src, len(defs))
 		if err != nil {
 			return nil, "err:unparsable-output"
 		}
 	}
-	os.WriteFile(filepath.Join(dir, "main.go"), []byte(probeSource(defs)), 0o644)
+	os.WriteFile(filepath.Join(dir, "main.go"), []byte(probeSource(defs, names)), 0o644)
 	bin := filepath.Join(dir, "probe")
 	bld := exec.Command("go", "build", "-o", bin, ".")
 	bld.Dir = dir
@@ -398,21 +436,11 @@ func (w *world) tryBuild(defs []*Def) ([]*built, string) {
 	}
 	res := make([]*built, len(defs))
 	for k, d := range defs {
-		// the sorters of this definition are read off the GENERATED file: every slice type whose
-		// element is this struct, with its element form
-		b := &built{def: d, status: "ok", chains: map[string]string{}, probe: p, idx: k}
-		for tn, el := range elemOf {
-			if el != structName(k) {
-				continue
-			}
-			raw := tn
-			if strings.HasPrefix(chains[tn], "ptr ") {
-				raw = "*" + tn
-			}
-			b.chains[raw] = chains[tn]
-			b.names = append(b.names, raw)
+		// the sorters of this definition are read off the GENERATED file
+		b := &built{def: d, status: "ok", chains: chains[k], probe: p, idx: k, names: names[k]}
+		if b.chains == nil {
+			b.chains = map[string]string{}
 		}
-		sort.Strings(b.names)
 		res[k] = b
 	}
 	return res, ""
